@@ -28,6 +28,7 @@ type EA struct {
 	Coef     [8]int   // coefficient of register number i (at AddrSize)
 	Disp     uint32   // displacement mod 2^AddrSize
 	SegSS    bool     // default segment is SS (base is (E)BP or (E)SP)
+	SegAny   bool     // (expected side only) the default segment is not compared
 }
 
 type Operand struct {
